@@ -3,7 +3,8 @@
    oracle returning elements of its input.  Legality of the generated moves themselves is C01;
    the runtime part (real threads) is exercised on the binary by the check. *)
 From Walleye Require Import Model.Uci Proofs.SessionProofs Proofs.RootProofs.
-From Walleye Require Import Spec.Abs Proofs.GenerateAbs Proofs.LegalMoves Proofs.MakeMoveSame Proofs.GoAnswer Proofs.PositionGo.
+From Walleye Require Import Spec.Abs Proofs.GenerateAbs Proofs.LegalMoves Proofs.MakeMoveSame Proofs.GoAnswer Proofs.PositionGo Proofs.AlwaysAnswered.
+From Coq Require Import Permutation.
 Open Scope Z_scope.
 
 (* whatever the search hands back, at whichever point the clock expires, is a generated root move *)
@@ -69,7 +70,51 @@ Theorem C03_position_then_go : forall zt osort,
                     abs (ss_board st') = apply P mv /\ pos_ok1 (ss_board st')).
 Proof. exact position_then_go. Qed.
 
+(* every go is answered: in a position with at least one move, for every expiry index, pick and ordering oracle that
+   keeps non-empty lists non-empty, a go step that leaves the session running has printed its info lines and then
+   exactly one bestmove line - the search always hands a move back (an accepted evaluation's move, or, once the
+   clock has expired, the first move of the ordering) *)
+Theorem C03_go_is_always_answered : forall zt osort,
+  (forall i l, l <> [] -> osort i l <> []) ->
+  forall st cmds sc gt st' outs,
+  NULL_PLY_OFFSET * Z.of_nat (sc_fuel sc) + 1 <= 2 * MATE_SCORE ->
+  parse_go_command cmds = Ok gt -> generate_moves zt (ss_board st) AllMoves <> [] ->
+  go_step zt osort st cmds sc = (st', outs) -> ss_phase st' = Running ->
+  exists ev s b t,
+    get_best_move zt osort (sc_k sc) (sc_fuel sc) (ss_board st) (ss_table st) = Ok (ev, s) /\
+    In b (sends_of ev) /\ best_move_text b = Ok t /\ ss_board st' = b /\ outs = infos_of ev ++ [s_bestmove ++ t].
+Proof. exact go_is_answered. Qed.
+
+(* so the exchange `position ...` / `go ...` has exactly two outcomes: the null move when there is no legal move,
+   and otherwise info lines followed by one bestmove line with the text of a legal move *)
+Theorem C03_position_then_go_is_answered : forall zt osort,
+  (forall i l, Permutation l (osort i l)) ->
+  forall st raw1 sc1 cmds1 b t P raw2 sc2 cmds2 gt st' outs,
+  NULL_PLY_OFFSET * Z.of_nat (sc_fuel sc2) + 1 <= 2 * MATE_SCORE ->
+  ss_phase st = Running ->
+  split_on 32 (clean_input raw1) = cmds1 -> nth_error cmds1 0 = Some s_position ->
+  play_out_position zt cmds1 = Ok (b, t) -> abs b = P -> pos_ok1 b ->
+  split_on 32 (clean_input raw2) = cmds2 -> nth_error cmds2 0 = Some s_go -> parse_go_command cmds2 = Ok gt ->
+  run zt osort st [(Line raw1, sc1); (Line raw2, sc2)] = (st', outs) -> ss_phase st' = Running ->
+  (legal_moves P = [] /\ outs = [s_bestmove ++ NULL_MOVE_TEXT] /\ ss_board st' = b) \/
+  (exists mv infos, In mv (legal_moves P) /\ outs = infos ++ [s_bestmove ++ text_of_move mv] /\
+                    abs (ss_board st') = apply P mv /\ pos_ok1 (ss_board st')).
+Proof.
+  intros zt osort HP st raw1 sc1 cmds1 b t P raw2 sc2 cmds2 gt st' outs HF R E1 N1 PL A PO E2 N2 PG RUN R'.
+  assert (HI : forall i l x, In x (osort i l) -> In x l) by (intros i l x Hx; apply (Permutation_in _ (Permutation_sym (HP i l)) Hx)).
+  assert (HN : forall i l, l <> [] -> osort i l <> []).
+  { intros i l Hl E. apply Hl. pose proof (HP i l) as Q. rewrite E in Q. now apply Permutation_sym, Permutation_nil in Q. }
+  destruct (position_then_go zt osort HI st raw1 sc1 cmds1 b t P raw2 sc2 cmds2 gt st' outs R E1 N1 PL A PO E2 N2 PG RUN R')
+    as [X|[(NL & _ & ev & s & GB & SE & _)|X]]; [left; exact X| |right; exact X].
+  exfalso. assert (NG : generate_moves zt b AllMoves <> []).
+  { intros G. apply NL. subst P. now apply (no_moves_iff zt b PO). }
+  destruct (search_sends_a_move zt osort HN (sc_k sc2) (sc_fuel sc2) HF b t ev s NG GB) as [b0 Hb].
+  apply send_in_sends_of in Hb. rewrite SE in Hb. contradiction.
+Qed.
+
 Print Assumptions C03_sends_are_root_moves.
+Print Assumptions C03_go_is_always_answered.
+Print Assumptions C03_position_then_go_is_answered.
 Print Assumptions C03_position_then_go.
 Print Assumptions C03_bestmove_is_a_legal_move.
 Print Assumptions C03_answer_is_a_send.
